@@ -76,7 +76,7 @@ Lowest(S, k) == {x \in S : Cardinality({y \in S : y < x}) < k}
 RawVals == {VFin(Lowest(PUos, 2)), VFin(PUos \ Lowest(PUos, Cardinality(PUos) \div 2)), VFin({BS!SetMin(PUos), 40}),
             VFin({1}), [fin |-> {}, inf |-> TRUE, n |-> 32], [fin |-> {0}, inf |-> TRUE, n |-> 32], V0}
 Raw(f, s) == [k |-> "raw", f |-> f, s |-> s, op |-> ""]
-RawLocs == {Raw(f, BS!Render(f, v)) : f \in BS!Fmts, v \in RawVals}
+RawLocs == UNION {{Raw(f, BS!Render(f, v)) : v \in {v \in RawVals : f = "list" => ~VEmpty(v)}} : f \in BS!Fmts}      \* no empty word
            \cup {Raw("hwloc", BS!Variant("hwloc", v, sty)) : v \in {VFin(Lowest(PUos, 2)), VFin({BS!SetMin(PUos), 40})}, sty \in {"short", "upper", "lead1"}}
            \cup {Raw("taskset", BS!Variant("taskset", VFin(PUos), "upper")), Raw("list", BS!Variant("list", VFin(Lowest(PUos, 3)), "single")),
                  Raw("list", "1,3"), Raw("list", "2")}
